@@ -22,7 +22,13 @@ class Hang(Exception):
     """The loop would block forever (nothing scheduled, nothing in flight) or the execution was aborted."""
 
 
+class BusyLoop(KeyboardInterrupt):
+    """Raised by the wall-clock watchdog.  Derived from KeyboardInterrupt because asyncio swallows ordinary
+    exceptions raised inside callbacks and task steps, but lets KeyboardInterrupt through."""
+
+
 TX_CAP = 64
+BUSY_HITS = 0     # how often the wall-clock watchdog fired in this process (explorers stop early when it does)
 
 
 class FakeSock:
@@ -297,13 +303,36 @@ class KLoop(selector_events.BaseSelectorEventLoop):
         return transport, protocol
 
     # --- driving helpers
+    REAL_TIME_BUDGET = 20.0   # seconds of wall-clock per run(): a busy loop inside the library must not hang the checker
+
     def run(self, coro):
         """run_until_complete that always restores 'no running loop' and reports Hang as a value."""
+        import signal
+        import threading
+
+        def on_alarm(signum, frame):
+            raise BusyLoop('real-time budget exceeded: the code under test spins without returning to the event loop')
+        armed = threading.current_thread() is threading.main_thread()
+        if armed:
+            old = signal.signal(signal.SIGALRM, on_alarm)
+            signal.setitimer(signal.ITIMER_REAL, self.REAL_TIME_BUDGET)
         try:
             return ('done', self.run_until_complete(coro))
-        except Hang as e:
+        except (Hang, BusyLoop) as e:
+            if isinstance(e, BusyLoop):
+                global BUSY_HITS
+                BUSY_HITS += 1
+            if armed:
+                signal.setitimer(signal.ITIMER_REAL, 0)
+            try:
+                coro.close()
+            except BaseException:  # noqa: BLE001
+                pass
             return ('hang', str(e))
         finally:
+            if armed:
+                signal.setitimer(signal.ITIMER_REAL, 0)
+                signal.signal(signal.SIGALRM, old)
             events._set_running_loop(None)
 
     def settle(self, dt=0.0):
